@@ -104,8 +104,9 @@ def applyAct (h : Lock → Nat) : Act → Lock → Nat
 /-- how often `p` holds each lock just before its `k`-th action. -/
 def heldAt (p : Prog) (k : Nat) : Lock → Nat := (p.take k).foldl applyAct (fun _ => 0)
 
-/-- releases only what is held, and holds nothing at the end
-(every program made of nested `with lock:` blocks is balanced, see `Block`). -/
+/-- releases only what is held, and holds nothing at the end.  This is what a nest of Python
+`with lock:` blocks executes (the context manager releases on every exit path); the extractor
+refuses explicit `acquire()`/`release()` calls.  It is a hypothesis of the theorems. -/
 def Balanced (p : Prog) : Prop :=
   (∀ k l, p[k]? = some (.rel l) → 0 < heldAt p k l) ∧ (∀ l, heldAt p p.length l = 0)
 
@@ -126,20 +127,6 @@ def Disciplined (S : Sys) (r : Lock → Nat) (g : Lock) : Prop :=
 /-- the plain rank discipline: new locks are only taken in increasing rank. -/
 def RankDisciplined (S : Sys) (r : Lock → Nat) : Prop :=
   ∀ t k x, t < S.n → NewAcq (S.prog t) k x → ∀ z, 0 < heldAt (S.prog t) k z → r z < r x
-
-/-! ### programs as nests of `with` blocks -/
-
-/-- `with l: body` -/
-inductive Block where
-  | withLock (l : Lock) (body : List Block)
-
-mutual
-  def Block.flatten : Block → Prog
-    | .withLock l body => Act.acq l :: (Block.flattenList body ++ [Act.rel l])
-  def Block.flattenList : List Block → Prog
-    | [] => []
-    | b :: bs => b.flatten ++ Block.flattenList bs
-end
 
 /-! ### the checker on a finite table
 
